@@ -95,7 +95,7 @@ def build(cell):
             s = sheet_of(prior)
             return s, None, s
         imports = c in ("importrule", "charsetrule", "variablesrule")
-        if not pop and c not in ("stylerule", "declaration", "property", "value", "selectorlist", "selector") and not imports:
+        if not pop and c not in ("stylerule", "declaration", "property", "value", "colorvalue", "selectorlist", "selector") and not imports:
             return None  # the fresh sheet only holds a style rule (or an @import)
         s = sheet_of("populated" if c in ("charsetrule", "variablesrule") else prior, imports)
         kind = {"stylerule": "STYLE_RULE", "mediarule": "MEDIA_RULE", "pagerule": "PAGE_RULE", "importrule": "IMPORT_RULE",
@@ -114,6 +114,9 @@ def build(cell):
             return st.style.getProperties(all=True)[0], st, s
         if c == "value":
             return st.style.getProperties(all=True)[0].propertyValue, st, s
+        if c == "colorvalue":
+            st.style.setProperty("color", "rgb(1, 2, 3)")
+            return st.style.getProperty("color").propertyValue[0], st, s
         if c == "selectorlist":
             return st.selectorList, st, s
         if c == "selector":
@@ -143,13 +146,14 @@ def build(cell):
         "declaration": lambda: css.CSSStyleDeclaration(cssText="left: 0; top: 1px !important" if pop else "", **k),
         "property": lambda: css.Property("left", "1px", "important") if pop else css.Property(),
         "value": lambda: css.PropertyValue(cssText="1px solid red" if pop else None, **k),
+        "colorvalue": lambda: css.PropertyValue(cssText="rgb(1, 2, 3)")[0],
         "selectorlist": lambda: css.SelectorList(selectorText="a, b" if pop else None, **k),
         "variablesdecl": lambda: css.CSSVariablesDeclaration(cssText="a: 1; z: 2" if pop else "", **k),
         "selector": lambda: css.Selector(selectorText="a b" if pop else None, **k),
         "medialist": lambda: MediaList(mediaText="print, tv" if pop else None, **k),
         "mediaquery": lambda: MediaQuery(mediaText="print and (color)" if pop else None, **k),
     }
-    if c not in mk or (ro and c == "property"):
+    if c not in mk or (ro and c in ("property", "colorvalue")):
         return None
     out, obj = outcome(mk[c])
     if out != "ok":
@@ -212,6 +216,7 @@ BAD = {
     ("property", "value"): {"immediate": "}", "late": "2px }", "nested": "rgb("},
     ("property", "priority"): {"immediate": "!imp", "late": "!important x"},
     ("value", "cssText"): {"immediate": "}", "late": "2px }", "nested": "f(2px, }"},
+    ("colorvalue", "cssText"): {"immediate": "}", "late": "rgb(10%, 20, 30)", "nested": "hsl(120, 50, 50)", "wrongtype": "rgba(1, 2, 3, 50%)"},
     ("selectorlist", "selectorText"): {"immediate": ",", "late": "x, $", "nested": "x, y:not(", "hierarchy": "zz|x"},
     ("selectorlist", "appendSelector"): {"immediate": "$", "late": "x, y", "nested": "y:not(", "hierarchy": "zz|x"},
     ("selectorlist", "setitem"): {"immediate": (0, "$"), "nested": (0, "y:not("), "hierarchy": (0, "zz|x"), "index": (9, "x")},
